@@ -14,6 +14,7 @@ func init() {
 			"the engine keeps every entry of a stream (groupEntries) and frames of any size are read whole (decoder rules): what the renderer prints is every returned record",
 			"PV-WHOLE: every successful evaluation returns a typed response (an empty result prints nothing, it does not fail); the merge yields only records the containers produced",
 			"PV-CONST renderOptions fields are written by flag parsing only",
+			"PV-GO concurrent opens: own slot, joined before use",
 		},
 		NotDecided: []string{"terminal behaviour", "isatty / NO_COLOR detection"},
 		Rules: func(r *Run) {
@@ -24,6 +25,7 @@ func init() {
 			ruleMergeIter(r)    // the merged stream holds the records the containers produced and nothing else
 			ruleResultKindSet(r)
 			ruleRenderOptionsOnlyFlags(r)
+			rulePVGo(r) // every container that was opened is rendered: the goroutines are joined before the merge
 		},
 	})
 }
